@@ -67,7 +67,9 @@ Ls == 0..(NL - 1)
 Is == 0..(NC - 1)
 IsPlonk == Instance = "plonk"
 IsVar == Instance = "starkvar"
-Os == IF IsPlonk THEN 0..3 ELSE 0..1     \* plonk: constants/sigmas, wires, zs, quotient; stark: trace, quotient
+IsLk == Instance = "starklk"          \* a STARK with a logUp lookup: auxiliary commitment, lookup challenges
+\* plonk: constants/sigmas, wires, zs, quotient; stark: trace, quotient; stark with lookups: trace, auxiliary, quotient
+Os == IF IsPlonk THEN 0..3 ELSE IF IsLk THEN 0..2 ELSE 0..1
 
 Digit(n) == <<"0", "1", "2", "3", "4", "5", "6", "7", "8", "9">>[n + 1]
 
@@ -195,8 +197,9 @@ C(k, r, i) == [k |-> k, r |-> r, i |-> i]
 S(n) == C(n, 0, 0)
 OracleCap(o) == IF IsPlonk
                 THEN (CASE o = 0 -> S("vd_cap") [] o = 1 -> S("wires_cap") [] o = 2 -> S("zs_cap") [] OTHER -> S("quot_cap"))
-                ELSE (IF o = 0 THEN S("trace_cap") ELSE S("quot_cap"))
+                ELSE (IF o = 0 THEN S("trace_cap") ELSE IF IsLk /\ o = 1 THEN S("aux_cap") ELSE S("quot_cap"))
 OpeningNames == IF IsPlonk THEN <<"op_constants", "op_sigmas", "op_wires", "op_zs", "op_pp", "op_quot", "op_lzs", "op_zs_next", "op_lzs_next">>
+                ELSE IF IsLk THEN <<"op_local", "op_aux", "op_quot", "op_next", "op_aux_next">>
                 ELSE <<"op_local", "op_quot", "op_next">>
 Openings == {S(OpeningNames[i]) : i \in 1..Len(OpeningNames)}
 
@@ -218,6 +221,9 @@ Head1 == IF IsPlonk
          THEN <<O(S("vd_digest")), O(S("pis")), O(S("wires_cap")), Sq("betas"), O(S("zs_cap")), Sq("alphas"), O(S("quot_cap")), Sq("zeta")>>
          \* starky: public inputs, config, trace cap, alphas', simulating zetas, zeta', bound evaluations
          \* (a function of what was drawn, the public inputs and the degree), alphas, quotient cap, zeta
+         ELSE IF IsLk
+         THEN <<O(S("pis")), O(S("trace_cap")), Sq("lookup_betas"), O(S("aux_cap")), Sq("alphas_prime"), O(S("degree_bits")), Sq("alphas"),
+                O(S("quot_cap")), Sq("zeta")>>
          ELSE <<O(S("pis")), O(S("trace_cap")), Sq("alphas_prime"), O(S("degree_bits")), Sq("alphas"), O(S("quot_cap")), Sq("zeta")>>
 RECURSIVE OpenSched(_)
 OpenSched(i) == IF i > Len(OpeningNames) THEN <<>> ELSE <<O(S(OpeningNames[i]))>> \o OpenSched(i + 1)
@@ -235,9 +241,16 @@ CircuitSchedule(db) ==
 Chk(id, reads, reads1, chals) == [id |-> id, reads |-> reads, reads1 |-> reads1, chals |-> chals]
 \* a wire / constant / trace column that no constraint mentions does not enter the identity: one changed element of
 \* these opening vectors MAY go unnoticed by the vanishing check (the transcript still notices it)
-VanishingPartial == IF IsPlonk THEN {S("op_wires"), S("op_constants"), S("op_lzs"), S("op_lzs_next")} ELSE {S("op_local"), S("op_next")}
+\* (lookups: of the next-row auxiliary openings only the running sum's is read)
+VanishingPartial == IF IsPlonk THEN {S("op_wires"), S("op_constants"), S("op_lzs"), S("op_lzs_next")}
+                    ELSE {S("op_local"), S("op_next")} \cup (IF IsLk THEN {S("op_aux_next")} ELSE {})
 VanishingReads == (Openings \ VanishingPartial) \cup {S("pis")} \cup (IF IsPlonk THEN {} ELSE {S("degree_bits")})
-Vanishing(i) == Chk("Vanishing" \o Digit(i), VanishingReads, VanishingPartial, (IF IsPlonk THEN {"betas"} ELSE {}) \cup {"alphas", "zeta"})
+\* with lookups the identity includes the logUp terms (eval_ext_lookups / _circuit): helper columns and running sum at
+\* zeta and g zeta, the looking / table / frequency / filter COLUMN EXPRESSIONS over the local AND the next trace row
+VanChals == (IF IsPlonk THEN {"betas"} ELSE IF IsLk THEN {"lookup_betas"} ELSE {}) \cup {"alphas", "zeta"}
+Vanishing(i) == Chk("Vanishing" \o Digit(i), VanishingReads, VanishingPartial, VanChals)
+\* mutant: the circuit-side column evaluator reads the LOCAL row where the expression names the NEXT row
+VanishingX(i) == Chk("VanishingX" \o Digit(i), VanishingReads, VanishingPartial, VanChals)
 PowChk == Chk("Pow", {}, {}, {"pow_response"})
 InitMerkle(r, o) == Chk("InitMerkle" \o Digit(o), {C("init_leaf", r, o), C("init_path", r, o)}, {OracleCap(o)}, {"x_index"})
 Combined(r) == {C("init_leaf", r, o) : o \in Os} \cup Openings
@@ -256,13 +269,16 @@ RECURSIVE AllRounds(_, _)
 AllRounds(r, n) == IF r \notin Rs THEN <<>> ELSE RoundChecks(r, n) \o AllRounds(r + 1, n)
 RECURSIVE VanChecks(_)
 VanChecks(i) == IF i \notin Is THEN <<>> ELSE <<Vanishing(i)>> \o VanChecks(i + 1)
+RECURSIVE VanChecksX(_)
+VanChecksX(i) == IF i \notin Is THEN <<>> ELSE <<VanishingX(i)>> \o VanChecksX(i + 1)
+CircuitVan == IF Mutant = "circuit_next_reads_local" THEN VanChecksX(0) ELSE VanChecks(0)
 
 \* native: validate shape (trivial on assignable proofs), vanishing identity per challenge, grinding, rounds
 \* every variable-length list a proof carries: the native verifier's shape validation reads their LENGTHS; on the circuit
 \* side the targets have fixed sizes and the library's assignment routine is the shape check
 ListComps ==
   {S("pis"), S("final_poly"), S("rounds"), S("commit_caps")} \cup Openings
-  \cup (IF IsPlonk THEN {S("wires_cap"), S("zs_cap"), S("quot_cap")} ELSE {S("trace_cap"), S("quot_cap")})
+  \cup (IF IsPlonk THEN {S("wires_cap"), S("zs_cap"), S("quot_cap")} ELSE {S("trace_cap"), S("quot_cap")} \cup (IF IsLk THEN {S("aux_cap")} ELSE {}))
   \cup {C("commit_cap", 0, l) : l \in Ls} \cup {C("init_leaf", 0, o) : o \in Os} \cup {C("init_path", 0, o) : o \in Os}
   \cup {C("step_eval", 1, l) : l \in Ls} \cup {C("step_path", 0, l) : l \in Ls}
 \* lists the assignment routine may legitimately find SHORTER than its targets (variable-degree mode): it pads with zeros
@@ -275,13 +291,13 @@ NativeChecks(db) == <<ShapeChk>> \o VanChecks(0) \o <<PowChk>> \o AllRounds(0, C
 \* an inactive layer constrains nothing and passes old_eval through, so the final check reads the last ACTIVE layer.
 \* mutant: the in-circuit range check enforces one leading zero too few
 CircuitPow == IF Mutant = "pow_one_bit_short" THEN Chk("PowLoose", {}, {}, {"pow_response"}) ELSE PowChk
-CircuitChecks(db) == SelectSeq(<<AssignChk>> \o VanChecks(0) \o <<CircuitPow>> \o AllRounds(0, Cardinality(Layers(db))),
+CircuitChecks(db) == SelectSeq(<<AssignChk>> \o CircuitVan \o <<CircuitPow>> \o AllRounds(0, Cardinality(Layers(db))),
                                LAMBDA k : k.id \notin Disabled)
 
 \* ---- adversary classes ----------------------------------------------------------------
 StaticComps ==
   {S("pis"), S("final_poly"), S("pow_witness")} \cup Openings
-  \cup (IF IsPlonk THEN {S("wires_cap"), S("zs_cap"), S("quot_cap")} ELSE {S("trace_cap"), S("quot_cap")})
+  \cup (IF IsPlonk THEN {S("wires_cap"), S("zs_cap"), S("quot_cap")} ELSE {S("trace_cap"), S("quot_cap")} \cup (IF IsLk THEN {S("aux_cap")} ELSE {}))
   \cup {C("commit_cap", 0, l) : l \in Ls} \cup {C("init_leaf", 0, o) : o \in Os}
   \* one Merkle sibling: per oracle / per layer, in the first and in the last query round
   \cup {C("init_path", r, o) : r \in {0, Q - 1}, o \in Os}
@@ -290,7 +306,8 @@ CompName(c) == IF c.k \in {"init_leaf", "init_path", "commit_cap", "step_eval", 
                THEN c.k \o ":" \o Digit(c.i) \o (IF c.k \in {"init_path", "step_path"} /\ c.r = Q - 1 THEN "@last" ELSE "")
                ELSE c.k
 AllIds(pre) == {pre \o Digit(i) : i \in 0..3}
-VanIds == {"Vanishing" \o Digit(i) : i \in Is}
+VanIds == {"Vanishing" \o Digit(i) : i \in Is} \cup {"VanishingX" \o Digit(i) : i \in Is}
+VanXIds == {"VanishingX" \o Digit(i) : i \in Is}
 StaticClasses == {[name |-> CompName(c), kind |-> "static", touched |-> c, partial |-> TRUE, breaks |-> {}, maybe |-> {}] : c \in StaticComps}
 VdClasses == IF ~IsPlonk THEN {} ELSE
   { [name |-> "vd_digest", kind |-> "static", touched |-> S("vd_digest"), partial |-> TRUE, breaks |-> {}, maybe |-> {}],
@@ -320,7 +337,14 @@ AdaptiveClasses(n) ==
                \* claimed wire opening changed before absorption: the reduced openings no longer match the leaves
                Ad("opening_delta", {IF n = 0 THEN "Final" ELSE "Consistency0"}, VanIds),
                Ad("zero_z", VanIds, {}), Ad("one_z", {}, VanIds) }
-        ELSE { Ad("corrupt_trace", VanIds, {}) })
+        ELSE { Ad("corrupt_trace", VanIds, {}) }
+             \cup (IF IsLk
+                   THEN { \* a changed cell of a looking column (counted by its filter): the logUp sums no longer match
+                          Ad("corrupt_lookup", VanIds, {}),
+                          \* honest proofs of a member whose lookup columns / filters read the local row only, resp. also the
+                          \* next row: only the latter tells a circuit evaluator that confuses the two rows
+                          Ad("honest_lk_local", {}, {}), Ad("honest_lk_next", VanXIds, {}) }
+                   ELSE {}))
 \* variable-degree mode: a proof made WITHOUT the circuit's parameters (no transcript padding) presented to the
 \* padding verifiers: the grinding response and the query indices differ as soon as something had to be padded
 VarClasses(d) == IF ~IsVar THEN {} ELSE
@@ -410,7 +434,7 @@ Adequate == (pc = 1 /\ adv.name = "none") =>
             \A id \in {T.nc[i].id : i \in 1..Len(T.nc)} :
               \E a \in Classes(db) : Exists(a, db) /\ id \in YesIds(a) /\ YesIds(a) \subseteq Group(id) /\ Cardinality(YesIds(a)) <= 2
 \* every class except the honest proof is rejected or position dependent
-OnlyHonestAccepted == Done /\ Disabled = {} => (nacc = "accept" <=> (adv.name \in {"none", "pow_exact"} \/ (adv.name = "unpadded" /\ db = VC.maxdb)))
+OnlyHonestAccepted == Done /\ Disabled = {} => (nacc = "accept" <=> (adv.name \in {"none", "pow_exact", "honest_lk_local", "honest_lk_next"} \/ (adv.name = "unpadded" /\ db = VC.maxdb)))
 
 \* Part 3: for every configuration the prover accepts and every proof degree that can be assigned at all, the
 \* circuit switches on exactly the proof's own layers, compares each Merkle path at the proof's own length and
